@@ -53,13 +53,13 @@ def coq_str(s):
 
 
 def make_tree(root):
-    for d in ('sand', 'sand/sub', 'sand_evil', 'Sand', 'other'):
+    for d in ('sand', 'sand/sub', 'sand_evil', 'Sand', 'other', 'other/cwdonly'):
         os.makedirs(os.path.join(root, d), exist_ok=True)
     inc = ('<xs:schema xmlns:xs="http://www.w3.org/2001/XMLSchema" targetNamespace="%s">'
            '<xs:element name="%s" type="xs:string"/><xs:complexType name="CT"><xs:sequence/></xs:complexType>'
            '<xs:simpleType name="ST"><xs:restriction base="xs:string"/></xs:simpleType></xs:schema>')
     for d, marker in (('sand', 'inside'), ('sand/sub', 'insidesub'), ('sand_evil', 'sibling'), ('Sand', 'casesibling'),
-                      ('other', 'outside')):
+                      ('other', 'outside'), ('other/cwdonly', 'outside')):
         with open(os.path.join(root, d, 'inc.xsd'), 'w') as f:
             f.write(inc % ('urn:t', marker))
         with open(os.path.join(root, d, 'imp.xsd'), 'w') as f:
@@ -72,6 +72,10 @@ TARGETS = {'inside': 'sand/inc.xsd', 'insidesub': 'sand/sub/inc.xsd', 'sibling':
 
 def spellings(root, target):
     """location spellings of the target file as seen from root/sand/main.xsd"""
+    if target == 'cwdonly':
+        # a relative location that does not exist below the base directory; the same relative path exists below the
+        # working directory of the process (root/other), which is outside the sandbox
+        return {'relative': 'cwdonly/inc.xsd', 'dotted': './cwdonly/inc.xsd', 'detour': 'sub/../cwdonly/inc.xsd'}
     rel = os.path.relpath(os.path.join(root, TARGETS[target]), os.path.join(root, 'sand'))
     absp = os.path.join(root, TARGETS[target])
     out = {'relative': rel, 'dotted': './' + rel, 'absolute': absp, 'file-url': 'file://' + absp,
@@ -114,6 +118,7 @@ def subject(case):
     root = os.path.join(str(common.BUILD), 'tmp', 'c12_%d' % os.getpid())
     if not os.path.isdir(os.path.join(root, 'sand')):
         make_tree(root)
+    os.chdir(os.path.join(root, 'other'))
     mode, mech, target, spell, version = case['mode'], case['mech'], case['target'], case['spelling'], case['version']
     cls = xmlschema.XMLSchema11 if version == '1.1' else xmlschema.XMLSchema10
     location = REMOTE if target == 'remote' else spellings(root, target)[spell]
@@ -244,7 +249,7 @@ def allowed_classes(mode):
 
 def target_class(target):
     return {'inside': 'inside', 'insidesub': 'inside', 'sibling': 'sibling', 'casesibling': 'sibling', 'outside': 'outside',
-            'remote': 'remote'}[target]
+            'remote': 'remote', 'cwdonly': 'outside'}[target]
 
 
 def model_term(case, o):
@@ -387,6 +392,87 @@ def check_base_spelling(ctx):
                           {'kind': 'base-spelling', 'case': c, 'impl': o, 'theorem': 'C12_sandbox_componentwise'})
 
 
+def subject_chdir(case):
+    """relative base directory with allow='sandbox': the sandbox is the directory the relative name denotes NOW; the same
+    strings are used after the working directory has changed"""
+    import xmlschema
+    root = os.path.join(str(common.BUILD), 'tmp', 'c12_%d' % os.getpid())
+    inc = ('<xs:schema xmlns:xs="http://www.w3.org/2001/XMLSchema" targetNamespace="urn:t">'
+           '<xs:element name="%s" type="xs:string"/></xs:schema>')
+    main = ('<xs:schema xmlns:xs="http://www.w3.org/2001/XMLSchema" targetNamespace="urn:t"><xs:include schemaLocation="inc.xsd"/>'
+            '<xs:element name="root" type="xs:string"/></xs:schema>')
+    for d, marker in (('wdA', 'fromA'), ('wdB', 'fromB')):
+        os.makedirs(os.path.join(root, d, 'box'), exist_ok=True)
+        with open(os.path.join(root, d, 'box', 'main.xsd'), 'w') as f:
+            f.write(main)
+        with open(os.path.join(root, d, 'box', 'inc.xsd'), 'w') as f:
+            f.write(inc % marker)
+    out = []
+    for step in case['steps']:
+        wd, api = step
+        os.chdir(os.path.join(root, wd))
+        res = {}
+
+        def go():
+            try:
+                if api == 'schema-path':
+                    sch = xmlschema.XMLSchema('box/main.xsd', allow='sandbox', base_url='box')
+                elif api == 'schema-text':
+                    sch = xmlschema.XMLSchema(main, allow='sandbox', base_url='box')
+                elif api == 'abs-other':
+                    # an absolute location inside the other directory's box: outside the current sandbox
+                    other = 'wdB' if wd == 'wdA' else 'wdA'
+                    sch = xmlschema.XMLSchema(main.replace('inc.xsd', os.path.join(root, other, 'box', 'inc.xsd')), allow='sandbox', base_url='box')
+                else:
+                    xmlschema.XMLResource('box/inc.xsd', allow='sandbox', base_url='box')
+                    sch = None
+                res['build'] = 'ok'
+                res['markers'] = sorted(n.split('}')[-1] for n in sch.maps.elements if 'from' in n) if sch is not None else []
+            except Exception as e:  # noqa
+                res['build'] = common.exc_class(e)
+                res['markers'] = []
+        record(go)
+        acc = set()
+        for kind, what in _EVENTS:
+            if kind == 'open' and not what.startswith('file:'):
+                pth = os.path.realpath(what)
+                if pth.startswith(root + os.sep + 'wd'):
+                    acc.add(os.path.relpath(pth, root).split(os.sep)[0])
+        res['accessed'] = sorted(acc)
+        out.append(res)
+    return out
+
+
+def check_chdir(ctx):
+    import random
+    rng = random.Random(ctx.rng.randrange(10 ** 9))
+    apis = ['schema-path', 'schema-text', 'abs-other', 'resource']
+    cases = [{'steps': [[rng.choice(['wdA', 'wdB']), rng.choice(apis)] for _ in range(rng.randint(2, 5))]}
+             for _ in range(24 if ctx.quick() else 300)]
+    cases.insert(0, {'steps': [['wdA', 'schema-path'], ['wdB', 'schema-path']]})
+    impl = common.pool_map(subject_chdir, cases, procs=4, fresh_process=True)
+    for c, o in zip(cases, impl):
+        rep = {'kind': 'chdir', 'case': c, 'impl': o}
+        if isinstance(o, dict):
+            ctx.violation('subject failed: %s' % o.get('harness_exception'), rep, no_input=True)
+            continue
+        for k, ((wd, api), r) in enumerate(zip(c['steps'], o)):
+            ctx.count(('chdir', json_key(c['steps'][:k + 1])), nontrivial=k > 0)
+            ctx.dist('relative sandbox after chdir', '%s step %d: %s' % (api, min(k, 3), r['build']))
+            wrong = [a for a in r['accessed'] if a != wd]
+            marks = [m for m in r['markers'] if m != 'from' + wd[-1]]
+            if wrong or marks:
+                ctx.violation("allow='sandbox', base_url='box' in working directory %s (step %d, %s, after %s): files of %s were opened, declarations %s"
+                              % (wd, k, api, c['steps'][:k], wrong or 'no other directory', marks or 'none foreign'),
+                              dict(rep, theorem='C12_sandbox_componentwise'))
+                break
+
+
+def json_key(x):
+    import json
+    return json.dumps(x)
+
+
 def subject_reparse(case):
     """parse() of another source into an existing resource / document keeps the access control of the instance"""
     import xmlschema
@@ -439,8 +525,9 @@ def gen(ctx):
               'encoded-dots-3', 'abs-detour', 'file-url-detour']
     for mode in modes:
         for mech in mechs:
-            for target in ('inside', 'insidesub', 'sibling', 'casesibling', 'outside', 'remote'):
-                for sp in (spells if target != 'remote' else ['relative']):
+            for target in ('inside', 'insidesub', 'sibling', 'casesibling', 'outside', 'remote', 'cwdonly'):
+                for sp in (spells if target not in ('remote', 'cwdonly') else ['relative'] if target == 'remote' else
+                           ['relative', 'dotted', 'detour']):
                     if sp.startswith('encoded-dots') and target in ('inside', 'insidesub'):
                         continue
                     for version in ('1.0', '1.1'):
@@ -474,6 +561,7 @@ def run(ctx):
         check_remote_base(ctx)
         check_base_spelling(ctx)
         check_reparse(ctx)
+        check_chdir(ctx)
     finally:
         cleanup()
     ctx.assumptions = ['accesses are observed as CPython audit events open / urllib.Request inside the temporary tree',
@@ -490,6 +578,8 @@ def replay(ctx, case):
             check_base_spelling(ctx)
         elif case.get('kind') == 'reparse':
             check_reparse(ctx)
+        elif case.get('kind') == 'chdir':
+            check_chdir(ctx)
         else:
             evaluate(ctx, [case['case']])
     finally:
